@@ -258,6 +258,9 @@ def run_harness(u, h, bdir, tier, unit_info):
             if nstep < h.get('expected_loop_steps', 1):
                 raise Inconclusive('vacuity guard: %d loop_invariant_step obligations, expected >= %d '
                                    '(loop contract silently dropped?)' % (nstep, h.get('expected_loop_steps', 1)))
+        for want in h.get('expect_descriptions', []):
+            if not any(want in (r.get('description') or '') for r in results):
+                raise Inconclusive('vacuity guard: no obligation "%s" was generated (loop rule not applied?)' % want)
         if 'c' in outs:
             cres = outs['c'][0]
             cl = canary_line(u, target)
